@@ -99,10 +99,10 @@ pub fn c18n_twin_skip_consumes_all() {
 pub mod ioreader {
 	use crate::gen::iord::h_ioreader;
 	use parity_scale_codec::Compact;
-	#[kani::proof] #[kani::unwind(8)] pub fn c18t_ioreader_tuple() { h_ioreader::<(Compact<u32>, Option<u16>), 5>() }
-	#[kani::proof] #[kani::unwind(8)] pub fn c18q_ioreader_opt_u16() { h_ioreader::<Option<u16>, 4>() }
-	#[kani::proof] #[kani::unwind(8)] pub fn c18q_ioreader_arr_u16() { h_ioreader::<[u16; 2], 5>() }
-	#[kani::proof] #[kani::unwind(8)] pub fn c18q_ioreader_arr_u8() { h_ioreader::<[u8; 4], 5>() }
-	#[kani::proof] #[kani::unwind(8)] pub fn c18t_ioreader_u64() { h_ioreader::<u64, 8>() }
-	#[kani::proof] #[kani::unwind(8)] pub fn c18t_ioreader_arr_opt() { h_ioreader::<[Option<bool>; 2], 4>() }
+	#[kani::proof] #[kani::unwind(14)] pub fn c18t_ioreader_tuple() { h_ioreader::<(Compact<u32>, Option<u16>), 5>() }
+	#[kani::proof] #[kani::unwind(14)] pub fn c18q_ioreader_opt_u16() { h_ioreader::<Option<u16>, 4>() }
+	#[kani::proof] #[kani::unwind(14)] pub fn c18q_ioreader_arr_u16() { h_ioreader::<[u16; 2], 5>() }
+	#[kani::proof] #[kani::unwind(14)] pub fn c18q_ioreader_arr_u8() { h_ioreader::<[u8; 4], 5>() }
+	#[kani::proof] #[kani::unwind(14)] pub fn c18t_ioreader_u64() { h_ioreader::<u64, 8>() }
+	#[kani::proof] #[kani::unwind(14)] pub fn c18t_ioreader_arr_opt() { h_ioreader::<[Option<bool>; 2], 4>() }
 }
